@@ -756,13 +756,9 @@ def tab_mathops(p, res):
         res.bad(F('TAB-MATHOPS', mm, 'math_expression.ops1', lam or n1, 'ops1[%r]' % '-', 'unary minus must negate its operand'))
     else:
         res.ok('ops1[-] = ' + src_of(lam))
-    # evaluate(): pops n2 before n1 and applies f(n1, n2)
-    evf = p.func('math_expression.evaluate')
-    s = src_of(evf.node)
-    if 'n2 = n_stack.pop()\n' in s and 'n1 = n_stack.pop()\n' in s and s.index('n2 = n_stack.pop()') < s.index('n1 = n_stack.pop()') and 'f(n1, n2)' in s:
-        res.ok('evaluate pops right operand first and applies f(n1, n2)')
-    else:
-        res.bad(F('TAB-MATHOPS', evf.module, evf.short, evf.node, 'operand order in evaluate', 'binary operators must be applied as f(left, right) with the right operand popped first'))
+    # evaluate(): pops the right operand first and applies f(left, right); errors for missing operands
+    from .tablecheck import check_table
+    check_table(p, res, 'TAB-MATHOPS', 'math_expression.evaluate', 'binary operators must be applied as f(left, right) with the right operand popped first; unary operators to the popped operand')
     res.require_floor(15)
 
 
